@@ -3,10 +3,14 @@ package main
 import (
 	"context"
 	"fmt"
+	"io"
 	"net/http/httptest"
 	"strconv"
 	"strings"
+	"time"
 
+	gws "github.com/gobwas/ws"
+	"github.com/gobwas/ws/wsutil"
 	"google.golang.org/genproto/googleapis/api/annotations"
 	"google.golang.org/genproto/googleapis/api/serviceconfig"
 	"google.golang.org/grpc/health"
@@ -199,6 +203,44 @@ func c19API(c *Ctx) {
 		}
 	}
 
+	// every selector form that covers the method binds the rule exactly like the annotation; every
+	// form that does not cover it binds nothing (each selector alone in its configuration)
+	{
+		mk := func() *annotations.HttpRule { return getRule("/c19/sel/{name}") }
+		annot, err1 := NewFixture([]*MethodSpec{{Name: "M", In: "Req", Out: "Reply", Unary: echo, Rule: mk()}}, nil)
+		bare, err0 := NewFixture([]*MethodSpec{{Name: "M", In: "Req", Out: "Reply", Unary: echo}}, nil)
+		for _, sel := range []struct {
+			s      string
+			covers bool
+		}{{"verif.v1.Svc.M", true}, {"verif.v1.Svc.*", true}, {"verif.v1.*", true}, {"verif.*", true}, {"*", true},
+			{"verif.v1.Svc.M.*", false}, {"verif.v1.Sv.*", false}, {"verif.v1.SvcX.*", false}, {"verif.v1.Svc.MX", false}, {"verif.v1.Svc", false}, {"other.*", false}, {"veri.*", false}} {
+			rule := mk()
+			rule.Selector = sel.s
+			conf, err2 := NewFixture([]*MethodSpec{{Name: "M", In: "Req", Out: "Reply", Unary: echo}}, &serviceconfig.Service{Http: &annotations.Http{Rules: []*annotations.HttpRule{rule}}})
+			in := fmt.Sprintf("selector %q alone in the config, rule GET /c19/sel/{name} for verif.v1.Svc.M", sel.s)
+			c.Eval("api-selector", in, true)
+			if err0 != nil || err1 != nil || err2 != nil || conf.RegErr != nil || conf.RegPanic != nil {
+				c.SpecFail("api-selector", in, fmt.Sprint(err0, err1, err2, conf.RegErr, conf.RegPanic), "registered", "C19/api/selector-registration", "a configuration with this selector cannot be registered")
+				continue
+			}
+			ref := bare
+			if sel.covers {
+				ref = annot
+			}
+			for _, path := range []string{"/c19/sel/x", "/c19/sel/x/y", "/c19/sel"} {
+				rec1, _ := ref.Serve(httptest.NewRequest("GET", path, nil))
+				rec2, pn := conf.Serve(httptest.NewRequest("GET", path, nil))
+				if pn != nil || rec1.Code != rec2.Code || rec1.Body.String() != rec2.Body.String() {
+					key := "C19/api/selector-overbinds"
+					if sel.covers {
+						key = "C19/api/selector-not-bound"
+					}
+					c.SpecFail("api-selector", in+": GET "+path, fmt.Sprintf("%d %q", rec2.Code, truncS(rec2.Body.String(), 80)), fmt.Sprintf("%d %q", rec1.Code, truncS(rec1.Body.String(), 80)), key, "a service-config rule is not bound to exactly the methods its selector covers")
+				}
+			}
+		}
+	}
+
 	// a config rule that restates an annotated method's primary pattern and extends it
 	{
 		ann := getRule("/c19/w")
@@ -291,6 +333,48 @@ func c19API(c *Ctx) {
 				c.SpecFail("api-healthz", fmt.Sprintf("%s=%v", svc, st), fmt.Sprintf("%d %s", rec.Code, rec.Body.String()), want, "C19/healthz/status", "healthz does not report the status set on the health server")
 			}
 		}
+	}
+	// the WebSocket binding of /v1/healthz streams the status as it changes (Watch)
+	{
+		hs.SetServingStatus("", healthpb.HealthCheckResponse_SERVING)
+		srv := httptest.NewServer(mux)
+		ctx, cancel := context.WithTimeout(context.Background(), 3*time.Second)
+		conn, br, _, err := gws.Dial(ctx, "ws"+strings.TrimPrefix(srv.URL, "http")+"/v1/healthz")
+		cancel()
+		in := "websocket /v1/healthz: first status, then SetServingStatus(NOT_SERVING)"
+		c.Eval("api-healthz", in, true)
+		if err != nil {
+			c.SpecFail("api-healthz", in, err.Error(), "a websocket", "C19/healthz/websocket", "the health service is not exposed over WebSocket at /v1/healthz")
+		} else {
+			conn.SetDeadline(time.Now().Add(3 * time.Second))
+			wsutil.WriteClientMessage(conn, gws.OpText, []byte("{}")) //nolint
+			var rw io.ReadWriter = conn
+			if br != nil { // frames that arrived together with the upgrade response
+				rw = struct {
+					io.Reader
+					io.Writer
+				}{br, conn}
+			}
+			read := func() string {
+				b, _, err := wsutil.ReadServerData(rw)
+				if err != nil {
+					return "error: " + err.Error()
+				}
+				var resp healthpb.HealthCheckResponse
+				if protojson.Unmarshal(b, &resp) != nil {
+					return "undecodable: " + string(b)
+				}
+				return resp.Status.String()
+			}
+			first := read()
+			hs.SetServingStatus("", healthpb.HealthCheckResponse_NOT_SERVING)
+			second := read()
+			conn.Close()
+			if first != "SERVING" || second != "NOT_SERVING" {
+				c.SpecFail("api-healthz", in, first+" then "+second, "SERVING then NOT_SERVING", "C19/healthz/websocket-watch", "the WebSocket binding of /v1/healthz does not report the statuses set on the health server as they change")
+			}
+		}
+		srv.Close()
 	}
 	rec, _ := serveOn(mux, httptest.NewRequest("GET", "/v1/healthz?service=unknown.service", nil))
 	c.Eval("api-healthz", "unknown service", true)
